@@ -99,7 +99,15 @@ let show_ip f buf =
   if not (ZfStd.utf8_valid buf) then "badutf8"
   else match f buf with Some o -> "ok " ^ hex o | None -> "err"
 
+let string_of_hex h =
+  String.concat "" (Stdlib.List.map (fun x -> String.make 1 (Char.chr (int_of_n x))) (unhex h))
+
 let () = run_lines (fun f ->
+  match f with
+  | ["zfx"; _; hx; expected] ->
+    (* C23: the expected parse (computed by the generator from the abstract records) is the oracle *)
+    run_zf (unhex hx) ^ " | " ^ string_of_hex expected
+  | _ ->
   let m = match f with
     | ["zf"; _; hx] -> run_zf (unhex hx)
     | ["u8"; hx] -> show_uint ZfStd.coq_U8_MAX (unhex hx)
